@@ -423,3 +423,62 @@ M("C13", "fsg: silence skips state 0", FM, "        for (src = 0; src < fsg->n_s
 M("C13", "fsg: alt copies to from_state", FM, "                    link->to_state = fl->to_state;\n                    link->logs2prob = fl->logs2prob; /* FIXME!!!??? */", "                    link->to_state = fl->from_state;\n                    link->logs2prob = fl->logs2prob; /* FIXME!!!??? */", "PROV.W5-transforms")
 M("C13", "fsg: null self-loop accepted", FM, "    if (from == to)\n        return -1;\n\n    if (fsg->trans[from].null_trans == NULL)", "    if (fsg->trans[from].null_trans == NULL)", "ORDER.W3-merge")
 M("C13", "fsg benign: %.8g", FM, '"%s %d %d %g %s\\n", FSG_MODEL_TRANSITION_DECL', '"%s %d %d %.8g %s\\n", FSG_MODEL_TRANSITION_DECL', kind="benign")
+
+JS = "src/jsgf.c"
+# ---- C05 ----------------------------------------------------------------------
+M("C05", "jsgf: top-level result ignored again", JS, """    if (expand_rule(grammar, rule) == -1) {
+        E_ERROR("Failed to expand rule %s\\n", rule->name);
+        glist_free(grammar->rulestack);
+        grammar->rulestack = NULL;
+        return NULL;
+    }""", "    expand_rule(grammar, rule);", "ERRD.J1-refusal")
+M("C05", "jsgf: sub-expansion failure ignored", JS, "                if (expand_rule(grammar, subrule) == -1)\n                    return -1;", "                expand_rule(grammar, subrule);", "ERRD.J1-refusal")
+M("C05", "jsgf: rhs failure treated as recursion", JS, "        if (lastnode == -1) {\n            return -1;\n        } else if (lastnode == RECURSION) {", "        if (lastnode == -1 || lastnode == RECURSION) {", "ERRD.J1-refusal")
+M("C05", "jsgf: stack reset dropped", JS, """    /* Forget any rule stack left over from a failed expansion. */
+    glist_free(grammar->rulestack);
+    grammar->rulestack = NULL;
+    if (expand_rule""", "    if (expand_rule", "PAIR.J2-rulestack")
+M("C05", "jsgf: embedded recursion allowed", JS, """                if (gnode_next(gn) != NULL) {
+                    E_ERROR("Only right-recursion is permitted (in %s.%s)\\n",
+                            grammar->name, rule->name);
+                    return -1;
+                }""", "", "GUARD.J5-recursion")
+M("C05", "jsgf: back link to rule->entry (seed C05-1)", JS, "                jsgf_add_link(grammar, atom, lastnode, subrule->entry);\n                return RECURSION;", "                jsgf_add_link(grammar, atom, lastnode, rule->entry);\n                return RECURSION;", "GUARD.J5-recursion")
+M("C05", "jsgf: subrule link from rule entry", JS, "                jsgf_add_link(grammar, atom,\n                              lastnode, subrule->entry);\n                lastnode = subrule->exit;", "                jsgf_add_link(grammar, atom,\n                              rule->entry, subrule->entry);\n                lastnode = subrule->exit;", "GUARD.J5-recursion")
+M("C05", "jsgf: token forgets new state", JS, """            jsgf_add_link(grammar, atom, lastnode, grammar->nstate);
+            lastnode = grammar->nstate;
+            ++grammar->nstate;
+        }
+    }
+
+    return lastnode;""", """            jsgf_add_link(grammar, atom, lastnode, grammar->nstate);
+            lastnode = grammar->nstate;
+        }
+    }
+
+    return lastnode;""", "GUARD.J5-recursion")
+M("C05", "jsgf: zero norm unrepaired", JS, "    if (norm == 0)\n        norm = 1;\n", "", "GUARD.J3-weights")
+M("C05", "jsgf: kleene recursion first", JS, "    rhs->atoms = glist_add_ptr(NULL, rule_atom);\n    rhs->atoms = glist_add_ptr(rhs->atoms, atom);", "    rhs->atoms = glist_add_ptr(NULL, atom);\n    rhs->atoms = glist_add_ptr(rhs->atoms, rule_atom);", "PROV.J4-internal-rules")
+M("C05", "jsgf: star base is the atom", JS, "    if (plus)\n        rhs->atoms = glist_add_ptr(NULL, jsgf_atom_new(atom->name, 1.0));", "    if (plus || atom->weight > 0)\n        rhs->atoms = glist_add_ptr(NULL, jsgf_atom_new(atom->name, 1.0));", "PROV.J4-internal-rules")
+M("C05", "jsgf: final state is entry", JS, "    fsg->final_state = rule->exit;", "    fsg->final_state = rule->entry;", "PROV.J6-arcs")
+M("C05", "jsgf: word arcs reversed", JS, "                fsg_model_trans_add(fsg, link->from, link->to,\n                                    logmath_log(lmath, link->atom->weight),", "                fsg_model_trans_add(fsg, link->to, link->from,\n                                    logmath_log(lmath, link->atom->weight),", "PROV.J6-arcs")
+M("C05", "scanner: DECLCOMMENT closes to INITIAL (.c only)", "src/jsgf_scanner.c", "{ BEGIN(DECL); }\n", "{ BEGIN(INITIAL); }\n", "TABLE.J7-scanner-states")
+M("C05", "decoder: null grammar passed on", DC, """    fsg = jsgf_build_fsg(jsgf, rule, d->lmath, lw);
+    if (fsg == NULL) {
+        jsgf_grammar_free(jsgf);
+        return -1;
+    }
+    result = decoder_set_fsg(d, fsg);
+    jsgf_grammar_free(jsgf);
+    return result;
+}
+
+int
+decoder_set_jsgf_string""", """    fsg = jsgf_build_fsg(jsgf, rule, d->lmath, lw);
+    result = decoder_set_fsg(d, fsg);
+    jsgf_grammar_free(jsgf);
+    return result;
+}
+
+int
+decoder_set_jsgf_string""", "ERRD.J1-refusal")
